@@ -45,16 +45,17 @@ def check_case(ctx, case, ops=None, tag_prefix=""):
     flav = {}
 
     def mk_scripts(info):
-        f, s = CS.gen_scripts(rng, info, case.get("flavour"))
+        f, s = CS.gen_scripts(rng, info, case.get("flavour"), real=bool(case.get("real")))
         flav["f"] = f
         return s
     if ops is not None:
         factory = lambda sim: detsim.scripted(ops, finish=case.get("finish", True))
     else:
-        factory = lambda sim: CS.random_chooser(rng, case["personality"], case.get("p_kill", 0.0))
+        factory = lambda sim: CS.random_chooser(rng, case["personality"], case.get("p_kill", 0.0),
+                                                p_split=case.get("p_split", 0.0))
     try:
         res = CS.run_real(case["template"], scripts if scripts is not None else mk_scripts, factory,
-                          cont=case.get("cont", ()))
+                          cont=case.get("cont", ()), real=bool(case.get("real")))
     except Exception as exc:  # noqa: the generated package was rejected / could not be built
         ctx.tag(tag_prefix + "build-error:" + type(exc).__name__)
         return None
@@ -77,6 +78,9 @@ def check_case(ctx, case, ops=None, tag_prefix=""):
         tags.append("has:replicas")
     if any(c["stage"] > 0 for c in res.info["comps"]):
         tags.append("has:two-stages")
+    tags.append("engines:" + ("real" if case.get("real") else "fake"))
+    if any(":" in x for sc in res.scripts.values() for x in sc):
+        tags.append("script:launch-raises")
     tags.append("stages=%d" % (res.info["lastStage"] + 1))
     tags.append("stages-run=%d" % len(res.results))
     if res.info["cont"]:
@@ -97,6 +101,10 @@ def check_case(ctx, case, ops=None, tag_prefix=""):
     tags += ["final:" + f for f in sorted(finals)]
     if win:
         tags.append("sched-inside-window")
+    if any(op[0] == "sched" and "inflight" in snap for op, snap in zip(res.ops, res.snaps)):
+        tags.append("sched-while-a-finished-notification-is-being-handled")
+    if any(len(snap.get("inflight", [])) > 1 for snap in res.snaps):
+        tags.append("two-finished-notifications-in-flight")
     if any(c[3] > 1 for c in (res.snaps[-1]["comps"] if res.snaps else [])):
         tags.append("restart-happened")
     ctx.case({"template": case["template"], "cont": list(case.get("cont", ())), "scripts": res.scripts,
@@ -110,6 +118,8 @@ def check_case(ctx, case, ops=None, tag_prefix=""):
                               "launches": res.launches[-3:]})
     if len(res.ops) >= CS.MAX_OPS:
         ctx.tag("op-budget-exhausted")
+    ctx.compare("no exception escapes a callback run on the controller pool", full, {"errors": []},
+                {"errors": res.pool_errors})
     # correspondence ---------------------------------------------------------------------
     outs = ctx.model([CS.model_request(res.info, res.scripts, res.ops)])
     if outs is not None:
@@ -139,7 +149,7 @@ def gen_case(rng, idx):
     template, cont = CS.gen_workflow(rng)
     return {"template": template, "cont": cont, "scripts": None, "seed": rng.randrange(1 << 30),
             "personality": rng.choice(sorted(CS.PERSONALITIES)), "p_kill": rng.choice([0, 0, 0, 0.01, 0.03]),
-            "flavour": None}
+            "flavour": None, "real": rng.random() < 0.25, "p_split": rng.choice([0, 0.25, 0.5, 0.8])}
 
 
 def corpus_cases():
